@@ -31,7 +31,7 @@ def funcs_of(r, stage='final'):
             for f in r.get('funcs', []) if f.get(stage) is not None}
 
 
-def coexec(compiled, nstates, rng, fuel=300000, stage='final', layout_from=None, with_trace=False):
+def coexec(compiled, nstates, rng, fuel=300000, stage='final', layout_from=None, with_trace=False, small_index=False):
     """compiled: {pid: {vname: result-json (status ok)}}.  All variants of a program are run from
     the same initial states under the same layout (the variables of the first variant unless
     layout_from names one).  -> {pid: {'layout', 'states', 'runs': {vname: {k: run}}}}"""
@@ -44,7 +44,13 @@ def coexec(compiled, nstates, rng, fuel=300000, stage='final', layout_from=None,
             lay = make_layout(ref['vars'], [f['name'] for f in ref.get('funcs', [])])
         except LayoutError:
             continue
-        states = gen_states(rng, lay, nstates)
+        if small_index:
+            # X, Y and index-like variables start inside the arrays of the generated programs: an out-of-range
+            # subscript may alias anything (DUMMY, cctmp, the stack), which no property is about
+            from .oracle import small_index_states
+            states = small_index_states(rng, lay, nstates)
+        else:
+            states = gen_states(rng, lay, nstates)
         meta[pid] = {'layout': lay, 'states': states, 'watch': None}
         for vn in names:
             t, watch = prog_record('%s@%s' % (pid, vn), funcs_of(vs[vn], stage), lay, states, fuel=fuel)
